@@ -36,7 +36,7 @@ def correspond(run):
 
 def search(run):
     estlib.search(run, "EstIdx")
-    sklib.direct_props(run, ["reinit-optdens", "reinit-revdens", "dens-resume"])
+    sklib.direct_props(run, ["reinit-optdens", "reinit-revdens", "dens-resume", "dens-f32-order", "optdens-order", "revdens-order"])
     rc, js, out, err = vlib.harness(["sk-mc", "--seed", run.seed, "--trials", 3000], timeout=3000)
     if rc != 0 or js is None:
         return
